@@ -41,6 +41,8 @@ func c03Scenarios(tier core.Tier) []scenario {
 	return []scenario{
 		{Name: "c03.kv", Universe: "U-kv", Depth: 5 + d, Orcs: orcs,
 			Menu: chain.Menu{Recv: true, Sync: true, Play: true, WalkSome: true, Submit: []string{"pW1", "pW2", "pR", "kvB", "kvF"}, Mine: 1, Blocks: []string{"k1", "k2", "j2", "j3"}}},
+		{Name: "c03.kv.del", Universe: "U-kv", Depth: 5 + d, Orcs: orcs,
+			Menu: chain.Menu{Recv: true, Sync: true, Play: true, WalkSome: true, Submit: []string{"pW1", "pRe"}, Mine: 1, Blocks: []string{"k1", "kd2", "kdx2", "k2"}}},
 		{Name: "c03.kv.blind", Universe: "U-kv", Depth: 6 + d, Orcs: orcs,
 			Menu: chain.Menu{Recv: true, Sync: true, Submit: []string{"pBlind", "pW1"}, DoTx: []string{"pBlind", "pW1", "pR"}, Mine: 1, Blocks: []string{"k1", "k2", "k3"}}},
 		{Name: "c03.amt", Universe: "U-amt", Depth: 5 + d, Orcs: orcs,
@@ -126,7 +128,9 @@ func c18Scenarios(tier core.Tier) []scenario {
 	orcs := func() []chain.Oracle { return []chain.Oracle{&chain.SnapshotOracle{}} }
 	return []scenario{
 		{Name: "c18.kv", Universe: "U-kv", Depth: 8 + d, Orcs: orcs,
-			Menu: chain.Menu{Recv: true, Sync: true, WalkSome: true, Submit: []string{"pW1", "pR", "pBlind"}, Mine: 1}},
+			Menu: chain.Menu{Recv: true, Sync: true, WalkSome: true, Submit: []string{"pW1", "pR", "pBlind"}, Mine: 1, Blocks: []string{"k1", "k2", "k3", "k4", "j2", "j3"}}},
+		{Name: "c18.kv.del", Universe: "U-kv", Depth: 7 + d, Orcs: orcs,
+			Menu: chain.Menu{Recv: true, Sync: true, WalkSome: true, Submit: []string{"pW1"}, Mine: 1, Blocks: []string{"k1", "kd2", "k2", "k3"}}},
 		// the state machine's own admission (State.DoTx without VerifyTx in front of it)
 		{Name: "c18.kv.dotx", Universe: "U-kv", Depth: 7 + d, Orcs: orcs,
 			Menu: chain.Menu{Recv: true, Sync: true, DoTx: []string{"pBlind", "pW1"}, Mine: 1, Blocks: []string{"k1", "k2", "k3"}}},
